@@ -6,7 +6,7 @@ From Coq Require Import List Arith Bool.
 From AV Require Import Base.Util Spec.Lang Spec.FA Spec.Minimal Spec.Preds Model.Decide Model.Product Model.Construct
                        Model.KMP Model.AhoCorasick Model.FiniteLang
                        Proofs.Preds Proofs.Border Proofs.Construct Proofs.IsMinimal Proofs.CtorMinimal Proofs.KMP Proofs.ACLang
-                       Proofs.FLLang.
+                       Proofs.FLLang Proofs.FLMin.
 Import ListNotations.
 
 (* ---- from_prefix: contains / complement, partial / complete ---- *)
@@ -426,6 +426,31 @@ Proof.
   intros s n m Hm. apply passes_intro; [eapply nth_from_end_valid; eassumption|eapply nth_from_end_is_minimal; eassumption].
 Qed.
 Print Assumptions C15_constructors_minimal.
+
+(* from_finite_language: the result of the mirror model of the Mihov-Schulz construction is minimal of its kind, for every
+   duplicate-free list of words over the alphabet and both forms (`passes` = valid, the executable test is_minimal says so,
+   and - through C15_is_minimal_sound, i.e. the Myhill-Nerode lower bound of C05 - no DFA of the same kind for the same
+   language over the same alphabet is smaller).  Invariant of the algorithm (Proofs/FLInv.v, FLAdd.v): after each
+   step the states off the path of the last word are exactly the registered ones, no two of them have the same signature,
+   they are pairwise distinguishable and all states are reachable; after the final compress(prev_word, "") the path is
+   the root alone, and the root differs from every other state by a longest word of the language (Proofs/FLMin.v).
+   Side condition of the complete form: a non-empty alphabet (over the empty alphabet `_to_complete` adds a trap state
+   that nothing can reach; the partial form and the empty language need no condition). *)
+Theorem C15_from_finite_language_minimal : forall syms lang as_partial,
+  NoDup syms -> NoDup lang -> (forall w, In w lang -> word_over syms w) ->
+  (as_partial = false -> lang <> [] -> syms <> []) ->
+  exists m, fl_dfa syms lang as_partial = Ok m /\ passes m.
+Proof.
+  intros syms lang ap Hs Hl Ho Hside. destruct (fl_dfa_minimal syms lang ap Hs Hl Ho Hside) as [m (E & Hv & Hm)].
+  exists m. split; [exact E|]. split; [exact Hv|]. split; [exact Hm|]. exact (C15_is_minimal_sound m Hv Hm).
+Qed.
+Print Assumptions C15_from_finite_language_minimal.
+
+(* the side condition is needed: over the empty alphabet the complete form of { "" } has an unreachable trap *)
+Example C15_from_finite_language_empty_alphabet :
+  (exists m, fl_dfa [] [[]] false = Ok m /\ size m = 2 /\ is_minimal m = false) /\
+  (exists m, fl_dfa [] [[]] true = Ok m /\ size m = 1 /\ is_minimal m = true).
+Proof. vm_compute. split; eexists; repeat split. Qed.
 
 (* the same by computation on all small patterns (kept as a cross-check of the models) *)
 Example C15_constructors_minimal_bounded :
